@@ -382,4 +382,41 @@ Proof.
       rewrite last_cons_app. reflexivity.
 Qed.
 
+(** every taken step passed the small-step checkpoint *)
+Lemma pass_addstep e s p a :
+  In (EAddStep A a) (snd (fst (pass e s p))) -> a_le_term a = false.
+Proof.
+  unfold Skeleton.pass.
+  repeat match goal with
+  | |- context [if ?c then _ else _] => destruct c eqn:?
+  end; cbn [fst snd]; rewrite ?in_app_iff; cbn [In];
+  intros H; repeat (destruct H as [H|H]); try discriminate; try contradiction;
+  try (injection H as <-; assumption).
+Qed.
+
+Lemma loop_addstep e : forall pins s a,
+  In (EAddStep A a) (snd (loop e s pins)) -> a_le_term a = false.
+Proof.
+  induction pins as [|p ps IH]; intros s a H; cbn [Skeleton.loop snd] in H; [contradiction|].
+  destruct (pass e s p) as [[s1 ev] c] eqn:E. destruct c.
+  - destruct (loop e s1 ps) as [r ev'] eqn:El. cbn [snd] in H. apply in_app_or in H.
+    destruct H as [H|H].
+    + apply (pass_addstep e s p a). rewrite E. exact H.
+    + apply (IH s1 a). rewrite El. exact H.
+  - cbn [snd] in H. apply (pass_addstep e s p a). rewrite E. exact H.
+Qed.
+
+Lemma accepted_steps_ok : stmt_accepted_steps A azero a_is_zero a_lt_switch a_le_term.
+Proof.
+  intros e pd pins almost a H. unfold Skeleton.run in H.
+  destruct (loop e _ pins) as [[s|] ev] eqn:El.
+  - destruct (Skeleton.finish A a_is_zero s almost) as [s' ev'] eqn:Ef. cbn [snd] in H.
+    apply in_app_or in H. destruct H as [H|H].
+    + eapply loop_addstep. rewrite El. exact H.
+    + unfold Skeleton.finish in Ef. injection Ef as _ <-.
+      destruct (a_is_zero (Skeleton.alpha A s)); cbn [app In] in H;
+        repeat (destruct H as [H|H]); try discriminate; try contradiction.
+  - cbn [snd] in H. eapply loop_addstep. rewrite El. exact H.
+Qed.
+
 End Proofs.
